@@ -119,8 +119,15 @@
 **	Binheader cast macros.
 */
 
+#if defined (LIBSNDFILE_VERIF) && defined (LIBSNDFILE_VERIF_PROMOTE_VARARGS)
+/* Verification hook: spell out the default argument promotion (the bounded
+** model checker does not apply it to variadic arguments). Same values. */
+#define BHW1(x) ((unsigned int) (uint8_t) (x))
+#define BHW2(x) ((unsigned int) (uint16_t) (x))
+#else
 #define BHW1(x) ((uint8_t) (x))
 #define BHW2(x) ((uint16_t) (x))
+#endif
 #define BHW3(x) ((uint32_t) (x))
 #define BHW4(x) ((uint32_t) (x))
 #define BHW8(x) ((uint64_t) (x))
